@@ -101,7 +101,7 @@ func (d *tDecoder) Decode(b []byte, base unsafe.Pointer, sd *structDesc, maxdept
 
 		f := sd.GetField(fid)
 		if f == nil || f.Type.WT != tp {
-			n, err := thrift.Binary.Skip(b[i:], thrift.TType(tp))
+			n, err := skipUnknown(b[i:], tp)
 			if err != nil {
 				return i, fmt.Errorf("skip unknown field %d of struct %s err: %w", fid, sd.rt.String(), err)
 			}
@@ -146,6 +146,18 @@ func (d *tDecoder) Decode(b []byte, base unsafe.Pointer, sd *structDesc, maxdept
 		*(*[]byte)(unsafe.Add(base, sd.unknownFieldsOffset)) = ufs.Copy(b)
 	}
 	return i, nil
+}
+
+// skipUnknown skips a value of wire type tp. thrift.TType is a signed int8 and gopkg indexes
+// its size table with it, so a type byte >= 0x80 anywhere in the skipped data panics inside
+// thrift.Binary.Skip; malformed input must be reported as an error instead.
+func skipUnknown(b []byte, tp ttype) (n int, err error) {
+	defer func() {
+		if r := recover(); r != nil {
+			n, err = 0, thrift.NewProtocolException(thrift.INVALID_DATA, fmt.Sprintf("unknown data type: %v", r))
+		}
+	}()
+	return thrift.Binary.Skip(b, thrift.TType(tp))
 }
 
 func decodeFixedSizeTypes(t ttype, b []byte, p unsafe.Pointer) int {
